@@ -89,7 +89,7 @@ def _loop_clears(fi, loop, action_names):
     return acts, bad
 
 
-@rule("C07.R2", "C07", "DOM", "every member edit of a static space discards the instances built from it", min_instances=9, also=("C02",))
+@rule("C07.R2", "C07", "DOM", "every member edit of a static space discards the instances built from it", min_instances=9, also=("C02", "C09"))
 def r2(ctx, R):
     """new_cells / set_cells_property / rename_cells: `<space>.clear_subs_rootitems()` on the
     edited space and, inside the loop, on every sub whose member is touched; rename_space: the
